@@ -3,7 +3,9 @@
 # (configured without -DOPM_COMMON_VERIF).  Rebuild it from the current working tree and run ctest the way
 # BASELINE.json does.  23 tests fail in this offline sandbox independently of /verif (BASELINE.json: always_fail).
 cd /repo/_build || exit 2
-cmake --build . -j16 > /dev/null 2>&1 || { echo "build of /repo/_build failed"; cmake --build . -j16 2>&1 | tail -30; exit 2; }
+# A few targets (CO2/H2 table users) cannot link in this sandbox because co2tables.inc / h2tables.inc are emptied here; they
+# are not part of the baseline.  Build everything that can be built (-k 0) and let ctest tell which tests pass.
+ninja -C /repo/_build -k 0 > /tmp/opm_baseline_off.build.log 2>&1 || echo "note: some targets of /repo/_build did not build (see /tmp/opm_baseline_off.build.log); continuing with ctest"
 ctest --test-dir /repo/_build -j8 --timeout 900 --output-junit /tmp/opm_baseline_off.junit.xml
 python3 - <<'PY'
 import json, xml.etree.ElementTree as ET, sys
